@@ -449,6 +449,38 @@ def file_effects(ctx, refs, fe, pool):
                           what="svgdx wrote over its own input (%s)" % name)
 
 
+    # output that cannot be written (stdout is a full device): the transform has failed, so the command must say so and exit
+    # non-zero, whether the document came from a file or from stdin
+    if os.path.exists("/dev/full"):
+        import subprocess
+        oks = [dd for dd in pool[:200] if refs.get(dd, None)[0] == "ok" and len(refs.get(dd, None)) > 1]
+        for j in range(min(len(oks), 6 if ctx.quick() else 40)):
+            data = oks[j]
+            open(ip, "wb").write(data)
+            for form in ("file-to-stdout", "stdin-to-stdout", "stdin-to-dash"):
+                args = {"file-to-stdout": [ip], "stdin-to-stdout": [], "stdin-to-dash": ["-o", "-"]}[form]
+                try:
+                    with open("/dev/full", "wb") as full:
+                        pr = subprocess.run([core.CLI_BIN] + args, input=(b"" if form == "file-to-stdout" else data), stdout=full,
+                                            stderr=subprocess.PIPE, timeout=120, preexec_fn=core._limits)
+                except (OSError, subprocess.TimeoutExpired):
+                    acc.count("cli.write-failure.not-run")
+                    continue
+                acc.evaluations += 1
+                acc.cases += 1
+                acc.nontriv(core.chash("writefail", form, data), ["files.write-failure." + form])
+                if pr.returncode == 0 or not pr.stderr.strip():
+                    # stdout is line-buffered by std: output that does not end with a line break (fragments without a root <svg>)
+                    # is still in the buffer when svgdx returns, a family of its own
+                    out = refs.get(data, None)[1] or b""
+                    if isinstance(out, str):
+                        out = out.encode("utf-8")
+                    tail = "" if out.endswith(b"\n") else "/output-without-final-newline"
+                    acc.violation("write-failure", "cli-write-failure-not-reported:" + form + tail, dict(kind="write-failure", form=form, input=data),
+                                  observed=dict(rc=pr.returncode, stderr=core.trunc(pr.stderr, 200)), expected="non-zero exit status and a message",
+                                  what="stdout could not be written (ENOSPC) but svgdx reported success")
+
+
 # ------------------------------------------------------------------------------------------
 
 def run_phases(ctx, phases=("agreement", "sequential", "concurrent", "files")):
